@@ -151,7 +151,8 @@ def run(chk, repo):
             state["steps"] = RF.sym("STEPS")
         Lpre = state["c"] + state["n"] * stepsym - state["lastp"]
         outcomes = _simulate(loop.body, state, mod)
-        chk.require(outcomes, "modulo_counter: leaf [%s] has no yield" % ctxt)
+        chk.decide(bool(outcomes), "C19.modulo", W("modulo_counter"), "%s: one value per iteration" % label,
+                   why="the loop of this leaf yields nothing", node=loop)
         for yexpr, ynode, post, subs in outcomes:
             startv = cur["start"] if start_iter else RF.const(0)
             stepv = cur["step"]
@@ -594,6 +595,8 @@ def _simulate(stmts, state, mod):
                         run(list(s.orelse) + stmts, st, ys, subs)
                         return
                 raise AnalysisError("modulo_counter: condition '%s' inside a leaf not understood" % unparse(t))
+            elif isinstance(s, ast.Pass):
+                continue
             else:
                 raise AnalysisError("modulo_counter: statement '%s' inside a leaf not understood" % unparse(s))
         for yv, yn in ys:
